@@ -47,10 +47,9 @@ def run(tier, seed):
     progs = runner.compile_programs(items, want=('machine', 'codegen'))
     pairs = [(p, a) for p, a in zip(progs, asts) if p.ok]
     verdicts = collections.Counter((p.name.split(':')[0], p.res['outcome']) for p in progs)
-    reports, st, cases = explore(pairs, 8 if quick else 12, 400 if quick else 3000)
+    reports, st, cases = explore(pairs, 8 if quick else 12, 1600 if quick else 9000)
     for e in st['errors']:
-        if 'timeout' not in str(e):
-            chk.machinery_error('TLC(LangMC): ' + str(e)[:1500])
+        chk.machinery_error('TLC(LangMC): ' + str(e)[:1500])
     namb = 0
     for (p, a), reps in zip(pairs, reports):
         v = [r for r in reps if r['kind'] == 'AMBIGUOUS']
